@@ -196,16 +196,18 @@ def replay_violation(tu, reg, fname, res, ob):
             return
         out = json.loads(r.stdout.split('RESULT ', 1)[1].splitlines()[0])
         how['native'] = {'result': out['result']}
-        if res['kind'] != 'ensures':
-            res['detail'] += ' | native replay ran without sanitizer report (result %s)' % out['result']
-            return
-        broken = eval_post_concrete(tu, reg, fname, cfg, w, out, layout, res['id'].rsplit('.', 1)[-1])
-        how['native']['clause_holds'] = not broken
+        if res['kind'] == 'ensures':
+            names = [res['id'].rsplit('.', 1)[-1]]
+        else:
+            # an inner obligation (invariant, lemma, bounds): does the real function break its own postcondition on this input?
+            names = list(c.ensures)
+        broken = [n for n in names if eval_post_concrete(tu, reg, fname, cfg, w, out, layout, n)]
+        how['native']['clauses_broken'] = broken
         if broken:
             res['replayed'] = True
-            res['detail'] += ' | native replay: the compiled function returns %s and breaks the clause' % out['result']
+            res['detail'] += ' | native replay: the compiled function returns %s and breaks ensures.%s' % (out['result'], ','.join(broken))
         else:
-            res['detail'] += ' | native replay: real code satisfies the clause on this input (returned %s)' % out['result']
+            res['detail'] += ' | native replay: real code satisfies the postcondition on this input (returned %s)' % out['result']
     finally:
         shutil.rmtree(work, ignore_errors=True)
 
